@@ -63,6 +63,28 @@ def pattern_entries(prog, rep, entries, rule="PAT", not_charged=(), allow_raw=()
     return P, objs
 
 
+def pattern_method(prog, rep, qname, raw_attrs, rule="PAT", allow_result_arith=True):
+    """Analyse a method whose object holds raw weight matrices in `raw_attrs`: no *decision* (branch, index,
+    loop) may depend on weight values; the numeric result may (e.g. a sample, a covariance)."""
+    from ..core import ObjV
+    f = need(prog, qname)
+    P = PT.Pattern(prog)
+    obj = ObjV(f.module, f.cls, {a: P.fresh_matrix() for a in raw_attrs}, tag="self")
+    bound = {p_: PT.PV() for p_ in f.params}
+    try:
+        P.summary(f, obj, bound, {}, P.module_ctx(f.module), f.node)
+    except Inconclusive as e:
+        rep.unk(rule + ".method", fwhere(f), "zero-pattern analysis left the modelled fragment: %s" % e.why)
+        return
+    for (qq, line, msg) in P.unknown:
+        rep.unk(rule + ".method", {"file": f.module.relpath, "line": line, "function": qq, "construct": msg}, msg)
+    if not P.violations:
+        rep.ok(rule + ".method", fwhere(f), "no branch, index or loop of %s depends on the values of self.%s - only on their zero pattern" % (f.name, "/".join(raw_attrs)))
+    for k, v in P.violations.items():
+        rep.bad(rule + ".value-sensitive", {"file": v["file"], "line": v["line"], "function": v["function"], "construct": v["construct"]},
+                "arithmetic on raw weights reaches a decision: " + "; ".join(v["sinks"][:3]), detail=v["sinks"])
+
+
 # ----------------------------------------------------------------------------- SYM helpers
 def sym_function(prog, qname, inline=None, args=None):
     f = need(prog, qname)
